@@ -37,7 +37,7 @@ func init() {
 			"inputs are (i) uniform random strings of boundary lengths with protocol magic, (ii) every prefix of each well-formed seed message, (iii) boundary-aware mutations of seeds " +
 			"(8/16/32-bit fields at every offset set to boundary values in both byte orders, truncation, terminator removal, CR/LF at the end, growth to size classes). " +
 			"oracle: no panic / fatal error; bytes allocated by the call (runtime.MemStats.TotalAlloc delta, single goroutine, confirmed by re-measuring) <= 256 KiB. " +
-			"non-trivial = the target got past its first check (verdict was not an immediate no on the first bytes) or the input is a mutation of a valid message; distinct = hash(target, input)",
+			"non-trivial = the target got past its first check (verdict was not an immediate no on the first bytes) or the input is a mutation of a valid message; distinct = hash(target, input). every matcher target is also evaluated as the second member of a matcher set behind a not matcher on a connection whose peer has 24 MiB waiting (verdict at once, same allocation bound); dns / rdp / winbox targets whose options are placeholders of an environment variable that is not set.",
 		Assumptions: []string{
 			"the tls handler's parsing is crypto/tls itself and is not driven here",
 			"quic matcher inputs are fewer because a single evaluation may wait 100 ms for its internal listener",
